@@ -79,8 +79,9 @@ class K:
     """One execution of one lazily generated program."""
 
     def __init__(self, ch, ops, depth, nproc=2, maxproc=4, env=None, nevents=2, stop_at=None, reaction=True, probe_procs=True,
-                 falsy_causes=False, liberal_values=False, probe_timeouts=True, duck=False):
+                 falsy_causes=False, liberal_values=False, probe_timeouts=True, duck=False, translate=False):
         self.duck = duck
+        self.translate = translate      # True: a failure a process does not handle is re-raised as another exception `from` it
         self.chained = {}         # event index -> index of the event whose outcome it takes over (Event.trigger as a callback)
         self.probe_timeouts = probe_timeouts      # False: timeouts carry no callback of ours (an abandoned one has no callbacks at all)
         self.val = (lambda x: AnyEq(x)) if liberal_values else (lambda x: x)
@@ -208,6 +209,12 @@ class K:
                         continue
                 return out
             if out[0] == "exc" and not catching:
+                if self.translate:
+                    # the process ends with an exception of its own (other type, other arguments) chained to the one it
+                    # received: its joiners and run() must see this one, not the end of the cause chain
+                    new = (IndexError if isinstance(exc, Err) else Err)(("tr", pid))
+                    self.finish(pid, False, new.args)
+                    raise new from exc
                 self.finish(pid, False, out[1])
                 raise exc
             return out
